@@ -321,12 +321,13 @@ type Case struct {
 	Path            string `json:"path"`
 	Sink            int    `json:"sink"` // udp-based: index into loopHosts of the address the sink is bound on (-1 otherwise)
 	SinkDefaultPort bool   `json:"sink_default_port"`
-	ViaDial         bool   `json:"via_dial"`  // the URL names something else, dial_addr points at the sink
-	OmitPort        bool   `json:"omit_port"` // leave the port out where the scheme default applies
-	Bootstrap       bool   `json:"bootstrap"` // hostname resolved through a (harness) bootstrap server; destination = a TCP listener bound for the case
-	Truncate        bool   `json:"truncate"`  // plain udp: the sink answers TC, the retry over TCP must reach the same host:port
-	QuicSNI         bool   `json:"quic_sni"`  // quic/h3 via dial_addr with a host name in the URL: the destination is a QUIC listener that records the ClientHello's server name
-	Prior           bool   `json:"prior"`     // TLS-based: another upstream (different host name) was created before from the same caller-supplied tls.Config
+	ViaDial         bool   `json:"via_dial"`     // the URL names something else, dial_addr points at the sink
+	OmitPort        bool   `json:"omit_port"`    // leave the port out where the scheme default applies
+	Bootstrap       bool   `json:"bootstrap"`    // hostname resolved through a (harness) bootstrap server; destination = a TCP listener bound for the case
+	Truncate        bool   `json:"truncate"`     // plain udp: the sink answers TC, the retry over TCP must reach the same host:port
+	BootstrapIP     bool   `json:"bootstrap_ip"` // like bootstrap, but the URL host is the listener's IP literal: a configured bootstrap server must not be asked
+	QuicSNI         bool   `json:"quic_sni"`     // quic/h3 via dial_addr with a host name in the URL: the destination is a QUIC listener that records the ClientHello's server name
+	Prior           bool   `json:"prior"`        // TLS-based: another upstream (different host name) was created before from the same caller-supplied tls.Config
 }
 
 var loopHosts = []string{"127.0.0.1", "127.0.0.2", "127.1.2.15", "::1"}
@@ -399,11 +400,28 @@ func genCase(t *rapid.T) Case {
 		c.DialHost = v6forms[rapid.IntRange(0, len(v6forms)-1).Draw(t, "d6")]
 		c.DialAddr = c.DialHost // bare IPv6 without port
 	}
+	if rapid.IntRange(0, 11).Draw(t, "badPort") == 5 {
+		// a port that does not exist: such an address cannot be honoured and must be rejected, not wrapped around
+		bad := rapid.SampledFrom([]int{65536, 65589, 66389, 65979, 70000, 131125}).Draw(t, "badPortV")
+		// (in the position that decides the destination: the dial_addr's port if there is a dial_addr with a port,
+		// the URL's port if there is no dial_addr; a URL port next to a dial_addr is not looked at - statement silent)
+		if c.DialAddr != "" && c.DialPort != 0 {
+			c.DialPort = bad
+			c.DialAddr = net.JoinHostPort(c.DialHost, strconv.Itoa(bad))
+		} else if c.DialAddr == "" && c.HostKind != "v6bare" {
+			c.Port = bad
+		}
+	}
 	if c.Scheme == "tls" || c.Scheme == "tls+pipeline" || c.Scheme == "https" {
 		c.Prior = rapid.IntRange(0, 2).Draw(t, "prior") == 0
 	}
 	if c.Scheme == "https" {
 		c.Path = rapid.SampledFrom([]string{"/dns-query", "", "/q"}).Draw(t, "path")
+	}
+	if c.HostKind == "v4" && c.DialAddr == "" && c.Port <= 65535 && rapid.IntRange(0, 3).Draw(t, "bootstrapIP") == 0 {
+		c.Bootstrap, c.BootstrapIP = true, true
+		c.OmitPort = rapid.IntRange(0, 3).Draw(t, "bsipOmit") == 0
+		c.Sink = rapid.IntRange(0, 2).Draw(t, "bsipHost")
 	}
 	if c.HostKind == "name" && c.DialAddr == "" && rapid.Bool().Draw(t, "bootstrap") {
 		c.Bootstrap = true
@@ -534,10 +552,15 @@ func runCase(c Case, ctx *hx.Ctx) *hx.Failure {
 		}()
 		lp := l.Addr().(*net.TCPAddr).Port
 		// a unique hostname per case, resolved by the bootstrap server to the listener's address
-		c.Host = fmt.Sprintf("bs%d-%d.c18.test", lp, time.Now().UnixNano()%1000000)
-		bootMu.Lock()
-		bootMap[strings.ToLower(c.Host)+"."] = net.ParseIP(ip)
-		bootMu.Unlock()
+		if c.BootstrapIP {
+			// the URL names the listener's address itself; the bootstrap server knows nothing about it
+			c.Host, c.HostKind = ip, "v4"
+		} else {
+			c.Host = fmt.Sprintf("bs%d-%d.c18.test", lp, time.Now().UnixNano()%1000000)
+			bootMu.Lock()
+			bootMap[strings.ToLower(c.Host)+"."] = net.ParseIP(ip)
+			bootMu.Unlock()
+		}
 		if c.OmitPort {
 			c.Port = 0
 		} else {
@@ -574,6 +597,15 @@ func runCase(c Case, ctx *hx.Ctx) *hx.Failure {
 	}
 	addr := c.addr()
 	u, err := upstream.NewUpstream(addr, opt)
+	if c.Port > 65535 || c.DialPort > 65535 {
+		if err == nil {
+			u.Close()
+			return hx.Failf("C18/unhonourable-address-accepted", "NewUpstream(%q, dial_addr=%q) was accepted although port %d does not exist", addr, c.DialAddr, max(c.Port, c.DialPort))
+		}
+		ctx.Class("port-out-of-range-rejected")
+		ctx.Nontrivial(fmt.Sprintf("%v", c))
+		return nil
+	}
 	if err != nil {
 		// rejected at creation: allowed by the statement ("an address that cannot be honoured is rejected")
 		ctx.Class("rejected-at-creation")
@@ -602,6 +634,9 @@ func runCase(c Case, ctx *hx.Ctx) *hx.Failure {
 			return hx.Failf("C18/wrong-destination", "NewUpstream(%q, bootstrap=%s): the name resolves to %s, but no connection reached the configured destination %s within 3 s", addr, opt.Bootstrap, loopHosts[c.Sink%3], bsListener.Addr())
 		}
 		ctx.Class("bootstrap")
+		if c.BootstrapIP {
+			ctx.Class("bootstrap-configured-for-ip-literal")
+		}
 	} else if udpBased {
 		// a datagram must arrive at the sink bound for this case
 		select {
